@@ -5,7 +5,7 @@ from verif.core import Infra
 META = dict(
     technique="TLC exhaustive model check of ArgsMap.tla (ordered-multimap state machine: Add/Set/SetNoValue/Del/Parse/Reparse/Reset; invariants incl. the serialise/parse round trip, frame conditions as an action property) + TLC-generated behaviours (operation sequences with the spec's state and observer results after every step) replayed on the real Args (B1)",
     design_ref="DESIGN.md §4 C28",
-    text="ArgsMap.tla is model-checked over every reachable multimap of <= MaxLen entries (round trip ParseQS(Render(s)) = s minus empty entries, Del/Set/Add frame conditions on every transition). ArgsMapGen adds a history variable; TLC enumerates ALL operation sequences of length N over the op alphabet (and seeded random longer ones with -simulate) and prints each with the expected entries, Has/Peek/PeekMulti per key, Len and re-parse result after each step. The Go harness performs each sequence on a real Args (random API variant per call, fresh and recycled objects, caller buffers scribbled afterwards) and compares Len, Has, Peek, PeekMulti, All/VisitAll, the has-'=' flags, ParseBytes(QueryString()) and CopyTo with the spec after every step.",
+    text="ArgsMap.tla is model-checked over every reachable multimap of <= MaxLen entries (round trip ParseQS(Render(s)) = s minus empty entries, Del/Set/Add frame conditions on every transition). ArgsMapGen adds a history variable; TLC enumerates ALL operation sequences of length N over the op alphabet (and seeded random longer ones with -simulate) and prints each with the expected entries, Has/Peek/PeekMulti per key, Len and re-parse result after each step. The Go harness performs each sequence on a real Args (random API variant per call, fresh objects and recycled ones that held eight valued arguments before Reset, caller buffers scribbled afterwards) and compares Len, Has, Peek, PeekMulti, All/VisitAll, the has-'=' flags, ParseBytes(QueryString()) and CopyTo with the spec after every step.",
     note="Trusted: TLC, the Go toolchain, the JSON plumbing. Keys {a, b, empty}; values from a fixed set containing '&', '=', '+', '%', space, 0xFF and a literal escape. Sequences longer than N are sampled (seeded), not enumerated.",
 )
 
